@@ -671,6 +671,101 @@ def load_bin_program():
     return _PROG[key], s1 + s2
 
 
+# ---- the order in which given documents come out of the file parser ---------------------------------------------------------------
+
+def h_document_order(prog):
+    """FileParser::find_and_parse on explicitly named files: one parsed document per path, in the order given"""
+    from props import c18
+
+    class OrderModels(c18.EnvModels):
+        def __init__(self):
+            super().__init__(prog)
+            # the real file parser runs; only the file system, the glob matcher and the document parsers are stubs
+            for n in list(self.overrides):
+                if re.search(r"utils/file_parser\.rs[^>]*>::(?:new|find_and_parse)$", n):
+                    del self.overrides[n]
+
+            def ins(pat, fn, defs=None):
+                self.table.insert(0, (re.compile("^(?:%s)$" % pat), fn))
+                if defs:
+                    for n in [n for n in prog.funcs if re.search(defs, n)]:
+                        self.overrides[n] = (lambda ctx, fname, args, fn=fn: fn(ctx, None, args))
+            ins(r"<P as AsRef<(?:std::path::)?Path>>::as_ref|<&P as AsRef<(?:std::path::)?Path>>::as_ref", lambda c, m, a: c18.mk_path(c18.pstr(a[0])))
+            ins(r"<&(?:std::path::)?Path as Into<PathBuf>>::into|<&P as Into<PathBuf>>::into", lambda c, m, a: c18.mk_pathbuf(c18.pstr(a[0])))
+            ins(r"(?:std::fs::)?metadata::<.*>", lambda c, m, a: ok(Opaque("Metadata:file")))
+            ins(r"(?:std::fs::)?Metadata::is_dir", lambda c, m, a: SBool(False))
+            ins(r"(?:std::path::)?Path::exists", lambda c, m, a: SBool(True))
+            ins(r"accept", lambda c, m, a: SBool(True), defs=r"utils/file_parser\.rs[^>]*>::accept$")
+            ins(r"read_file", lambda c, m, a: ok(StringBuf([SInt(ord(ch), "char") for ch in "content of " + c18.pstr(a[0])])), defs=r"(?:^|::)read_file$")
+
+            def parser(c, m, a):
+                return ok(Agg("tuple", None, [Agg("ParserType", "Markdown", []), mk_box(Agg("StubParser", None, [c18.mk_pathbuf(c18.pstr(a[1]))]))]))
+            ins(r"parser", parser, defs=r"utils/file_parser\.rs[^>]*>::parser$")
+
+            def parse(c, m, a):
+                # the stub parser names its one test case after the content it is given
+                text = "".join(chr(ch.v) for ch in as_str(a[1]).chars)
+                cfg = c.call(c.program.resolve_call("DocumentConfig::empty"), [])
+                return ok(Agg("tuple", None, [cfg, VecBuf([mk_testcase(c, text, 1)])]))
+            ins(r"<dyn (?:scrut::parsers::parser::)?Parser as (?:scrut::parsers::parser::)?Parser>::parse", parse)
+            ins(r"<Result<.*> as anyhow::Context<.*>>::with_context::<.*>|<Result<.*> as anyhow::Context<.*>>::context::<.*>", lambda c, m, a: a[0] if a[0].variant == "Ok" else err(Opaque("anyhow:other")))
+
+    def mk(names):
+        def setup(ctx):
+            ctx.notes["ledger"] = c18.Ledger()
+            ctx.notes["names"] = names
+            fp = Agg("FileParser", None, [Opaque("match_cram"), Opaque("match_markdown"), Slice([])])
+            return [new_ref(fp), Str([SInt(ord(c), "char") for c in "test"]), Slice([c18.mk_path(n) for n in names]), SBool(False)]
+        return setup
+
+    def drive(ctx, args):
+        """FileParser::find_and_parse(name, paths, cram_compat) with the file system replaced by `every named path is a readable file`"""
+        return ctx.call(find_method(ctx.program, "utils/file_parser.rs", "find_and_parse"), list(args))
+
+    def post(ctx, args, kind, value):
+        if kind != "return" or value.variant != "Ok":
+            return False
+        docs = as_items(value.fields[0])
+        got = [c18.pstr(field_of(d, "path")) for d in docs]
+        titles = [title_of(field_of(d, "testcases").items[0]) for d in docs]
+        names = ctx.notes["names"]
+        return got == names and titles == ["content of " + n for n in names]
+    import itertools as it
+    base = ["zeta.md", "alpha.md", "last.t", "sub/b.md"]
+    inputs = [("paths=%s" % list(p), mk(list(p))) for n in (1, 2, 3) for p in it.permutations(base, n)]
+    h = e2.Harness("given_documents_keep_their_order", drive, inputs, post, native=None, judge=None,
+                   describe="find_and_parse yields one parsed document per named file, in the order the paths were given (command line, prepend / append lists)",
+                   bound="every ordered selection of 1..3 of the paths %s; files only (the order inside a directory is the file system's)" % base)
+    h.models_cls = OrderModels
+    return h
+
+
+def native_document_order(names):
+    """real `scrut test -r json` on explicitly named passing-and-failing documents: the outcomes come in the order of the command line"""
+    import json
+    import os
+    import shutil
+    import subprocess
+    import tempfile
+    from common import SCRUT_BIN
+    tmp = tempfile.mkdtemp(prefix="verif-c20o-")
+    try:
+        for n in names:
+            os.makedirs(os.path.dirname(os.path.join(tmp, n)) or tmp, exist_ok=True)
+            if n.endswith(".t"):
+                open(os.path.join(tmp, n), "w").write("%s\n  $ echo hello\n  nope\n" % n)
+            else:
+                open(os.path.join(tmp, n), "w").write("%s\n\n```scrut\n$ echo hello\nnope\n```\n" % n)
+        r = subprocess.run([SCRUT_BIN, "test", "-r", "json"] + names, cwd=tmp, stdout=subprocess.PIPE, stderr=subprocess.PIPE, text=True, timeout=60)
+        try:
+            got = [o["location"] for o in json.loads(r.stdout)]
+        except Exception:
+            got = None
+    finally:
+        shutil.rmtree(tmp, ignore_errors=True)
+    return got, {"argv": ["test", "-r", "json"] + names, "exit": r.returncode, "locations": got, "stderr_tail": r.stderr[-200:]}
+
+
 def shape_sig(docs, cli_pre, cli_app):
     return "%s%s%s" % ("cli-prepend+" if cli_pre else "", "|".join("%s%s%s:%s" % ("pre+" if d.pre else "", d.n, "+app" if d.app else "", d.kind) for d in docs),
                        "+cli-append" if cli_app else "")
@@ -726,6 +821,23 @@ def run(pid, tier):
                           {"kind": "scrut-test-run", "observation": obs, "verdicts": verdicts, "harness": "end-to-end sample"})
     rep.subclaims[-1]["concrete_validation"] = {"inputs": len(sample), "mismatches": bad, "wall_s": round(time.time() - t0, 1),
                                                 "function": "real `scrut test -r json` runs on documents realising sampled executor scripts, judged by the statement"}
+    ho = h_document_order(prog)
+    reso = e2.run_with_raw(prog, ho, max_witnesses=3)
+    for model, r in reso.raw_witnesses[:3]:
+        names = r.ctx.notes["names"]
+        got, obs = native_document_order(names)
+        if got is not None and got != names:
+            rep.violation("document-order", "`scrut test %s` reports its documents in the order %s" % (" ".join(names), got),
+                          {"kind": "scrut-test-run", "observation": obs, "harness": ho.name})
+        else:
+            rep.mismatches.append("%s: solver witness %s did not reproduce natively: %s" % (ho.name, names, obs))
+    e2.record(rep, ho, reso, status=("violated" if reso.witnesses else ("undecided" if reso.unsupported else "holds")))
+    for u in reso.unsupported[:3]:
+        rep.undecided.append(u)
+    got, obs = native_document_order(["zeta.md", "last.t", "alpha.md"])
+    if got != ["zeta.md", "last.t", "alpha.md"]:
+        rep.violation("document-order", "`scrut test zeta.md last.t alpha.md` reports its documents in the order %s" % got,
+                      {"kind": "scrut-test-run", "observation": obs, "harness": "end-to-end sample"})
     hm = h_main()
     hm.models_cls = lambda: MainModels(prog)
     resm = e2.run_harness(prog, hm)
